@@ -21,7 +21,8 @@ DETAILS = {
 }
 IDS = ('d1', 'd2', 'd3')
 # per-id variant: (format, pool, details-index)
-VARIANTS = [('S', None, i) for i in range(4)] + [('D', p, i) for p in ('p1', 'p2') for i in range(4)] + [('R', p, None) for p in ('p1', 'p2')]
+POOLS = ('p1', 'p2', '')      # the empty string is a pool name like any other (only the marker '_' is reserved)
+VARIANTS = [('S', None, i) for i in range(4)] + [('D', p, i) for p in POOLS for i in range(4)] + [('R', p, None) for p in POOLS]
 FMT = {'S': DelegationFormat.SinglePool, 'D': DelegationFormat.PoolDefinition, 'R': DelegationFormat.PoolReference}
 
 
@@ -205,13 +206,18 @@ def pools_describe(p):
 
 def eval_pools(case):
     t, fam = case[0], [(f[0], tuple(f[1]), f[2]) for f in case[1]]
+    scheme = case[2] if len(case) > 2 else 'plain'
     v = []
 
+    def pname(i):
+        # 'empty-first': the first pool is called '' - a name like any other
+        return '' if (scheme == 'empty-first' and i == 0) else f'pool{i}'
+
     def bad(fp, msg):
-        v.append((fp, f'{msg} [type {t} family {fam}]'))
+        v.append((fp, f'{msg} [type {t} family {fam} names {scheme}]'))
     pools = Pools(atype=T[t])
     for i, (on, ref, did) in enumerate(fam):
-        p = Pool(atype=T[t], pool_id=f'pool{i}', delegation_id=did, defined_on=on, defined_for=list(ref))
+        p = Pool(atype=T[t], pool_id=pname(i), delegation_id=did, defined_on=on, defined_for=list(ref))
         p.set_pool_details(mk_details(t, i % 4))
         pools.add_pool(pool=p)
     want = pools_describe(pools)
@@ -233,7 +239,7 @@ def eval_pools(case):
         return {'v': v, 'nt': (t, tuple(fam)), 'out': 'silent'}
     # shape: one definition on the defining node, one reference on each reference node
     for i, (on, ref, did) in enumerate(fam):
-        pid = f'pool{i}'
+        pid = pname(i)
         defs = [(n, d) for n, ds in per_node.items() for d in ds.delegations.values()
                 if d.get_pool_name() == pid and d.get_format() == DelegationFormat.PoolDefinition]
         refs = sorted(n for n, ds in per_node.items() for d in ds.delegations.values()
@@ -298,7 +304,7 @@ def eval_pools(case):
         def build_family(f2):
             ps = Pools(atype=T[t])
             for i, (on, ref, did) in enumerate(f2):
-                p = Pool(atype=T[t], pool_id=f'pool{i}', delegation_id=did, defined_on=on, defined_for=list(ref))
+                p = Pool(atype=T[t], pool_id=pname(i), delegation_id=did, defined_on=on, defined_for=list(ref))
                 p.set_pool_details(mk_details(t, i % 4))
                 ps.add_pool(pool=p)
             ps.build_index_by_delegation_id()
@@ -310,7 +316,7 @@ def eval_pools(case):
             return (ids, {d: sorted(p.get_pool_id() for p in (ps.get_pools_by_delegation_id(d) or [])) for d in ids + ['d1', 'd2', 'd3']},
                     {n: describe(ds) for n, ds in per.items()})
         fam2 = [(on, ref, 'd3' if i == 0 else did) for i, (on, ref, did) in enumerate(fam)]
-        pools.get_pool_by_id(pool_id='pool0').set_delegation_id(delegation_id='d3')
+        pools.get_pool_by_id(pool_id=pname(0)).set_delegation_id(delegation_id='d3')
         pools.build_index_by_delegation_id()
         got2, want2 = view(pools), view(build_family(fam2))
         if got2 != want2:
@@ -319,7 +325,7 @@ def eval_pools(case):
     except Exception as e:
         bad(f'pools/reindex-after-change/raises/{type(e).__name__}', str(e))
     shared = len({f[2] for f in fam}) < len(fam)
-    return {'v': v, 'nt': (t, tuple(fam)), 'out': f'k{len(fam)}{"-shared-delegation" if shared else ""}'}
+    return {'v': v, 'nt': (t, tuple(fam), scheme), 'out': f'k{len(fam)}{"-shared-delegation" if shared else ""}'}
 
 
 def pool_cases(tier):
@@ -334,7 +340,7 @@ def pool_cases(tier):
             pv3 = [x for x in pv if len(x[1]) == 1]      # three pools: single-reference pools (otherwise never representable on 4 nodes)
             for a, b, c in itertools.product(pv3, repeat=3):
                 cases.append((t, (a, b, c)))
-    return cases
+    return cases + [c + ('empty-first',) for c in cases]
 
 
 REPLAY = {'sets': eval_set, 'pools': eval_pools}
